@@ -64,6 +64,7 @@ func (r *Value) set(value proto.Message, request WriteRequest) (proto.Message, e
 
 	disarm := timeoutAlarm(time.Second, "GetAndUpdate took too long")
 	var publishing bool
+	var targets minibus.Targets
 	_, newValue, err := GetAndUpdate(
 		&r.mu,
 		func() (proto.Message, error) {
@@ -73,6 +74,8 @@ func (r *Value) set(value proto.Message, request WriteRequest) (proto.Message, e
 		func(message proto.Message) {
 			r.value = message
 			r.changeTime = request.updateTime(r.clock)
+			// the change goes to the subscribers registered now: one that registers later has it in its seed value
+			targets = r.bus.Targets()
 		},
 	)
 	disarm()
@@ -87,7 +90,7 @@ func (r *Value) set(value proto.Message, request WriteRequest) (proto.Message, e
 	ctx, cancel := context.WithTimeout(context.TODO(), time.Second*5)
 	defer cancel()
 	verifAt("pub.before", &r.mu)
-	r.bus.Send(ctx, &ValueChange{
+	r.bus.SendTo(ctx, targets, &ValueChange{
 		Value:      newValue,
 		ChangeTime: request.updateTime(r.clock),
 	})
@@ -150,10 +153,6 @@ func (r *Value) onUpdate(ctx context.Context, config *ReadRequest) (<-chan any, 
 		changeTime time.Time
 	)
 	if !config.UpdatesOnly {
-		// see Collection.onUpdate: the snapshot and the registration are not interleaved with a write's
-		// commit and publication
-		r.pubMu.Lock()
-		defer r.pubMu.Unlock()
 		r.mu.RLock()
 		defer r.mu.RUnlock()
 		value = r.value
